@@ -981,12 +981,15 @@ impl Sim {
 								}
 								("pay-invoice", r)
 							}
+							// the payer hands I2 back only after reserving its inputs (pay = process + lock)
+							(Flow::Invoice, Stage::Replied) if !locked => ("lock", self.lock(si)),
 							(Flow::Invoice, Stage::Replied) => ("finalize-invoice", self.finalize_invoice(si)),
 							_ => ("step-none", Ok(())),
 						};
 						let wallet = match kind {
 							"deliver" => self.slates[si].responder,
 							"pay-invoice" => self.slates[si].responder,
+							"lock" => self.slates[si].payer(),
 							_ => self.slates[si].initiator,
 						};
 						OpOutcome {
